@@ -204,8 +204,8 @@ theorem isVersion_renderSections (v : List Nat) (hv : v ≠ []) (hl : sectionsWi
     cases hp
     simp [h14, sectionsLt]
   · simp only [h14, ↓reduceIte]
-    rw [ht, isContainerWord_digit d t, ← ht, hp]
-    simp
+    rw [ht, isContainerWord_digit d t, ← ht]
+    simp [hp]
 
 theorem selectConstSections_14 : selectConstSections [1, 4] = .v14 := by
   simp [selectConstSections, sectionsLt]
@@ -241,5 +241,69 @@ theorem small_within (n : Nat) (h : n < 10) : (natDigits n).length ≤ PyTables.
 
 theorem sectionsWithinLimit_small (v : List Nat) (h : ∀ n ∈ v, n < 10) : sectionsWithinLimit v :=
   fun n hn => small_within n (h n hn)
+
+/-! ### strings without any digit -/
+
+theorem mem_joinWith_of_mem (d : Char) (fs : List Str) (f : Str) (hf : f ∈ fs) (c : Char) (hc : c ∈ f) :
+    c ∈ joinWith d fs := by
+  induction fs with
+  | nil => simp at hf
+  | cons g gs ih =>
+    cases gs with
+    | nil => simp at hf; subst hf; simpa [joinWith] using hc
+    | cons k ks =>
+      simp only [joinWith, List.mem_append, List.mem_cons]
+      rcases List.mem_cons.mp hf with rfl | hf'
+      · exact Or.inl hc
+      · exact Or.inr (Or.inr (ih hf'))
+
+/-- a character of a field of `s.split(d)` is a character of `s` -/
+theorem mem_of_mem_splitOn (d : Char) (s f : Str) (hf : f ∈ splitOn d s) (c : Char) (hc : c ∈ f) : c ∈ s := by
+  have := mem_joinWith_of_mem d (splitOn d s) f hf c hc
+  rwa [join_splitOn] at this
+
+theorem parseSection_some_hasDigit (f : Str) (n : Nat) (h : parseSection f = some n) :
+    ∃ c ∈ f, (digitVal c).isSome = true := by
+  unfold parseSection at h
+  split at h
+  · cases h
+  · rename_i hne
+    cases f with
+    | nil => simp at hne
+    | cons c cs =>
+      refine ⟨c, by simp, ?_⟩
+      simp only [List.mapM_cons, Option.map_eq_some_iff] at h
+      obtain ⟨ds, hds, _⟩ := h
+      cases hd : digitVal c with
+      | none => simp [hd] at hds
+      | some d => rfl
+
+/-- a string that parses as dotted-numeric sections contains a digit -/
+theorem parseVersion_some_hasDigit (s : Str) (v : List Nat) (h : parseVersion s = some v) :
+    hasDigit (versionString s) = true := by
+  unfold parseVersion at h
+  cases hs : splitOn '.' (versionString s) with
+  | nil => exact absurd hs (splitOn_ne_nil _ _)
+  | cons f fs =>
+    rw [hs] at h
+    simp only [List.mapM_cons] at h
+    cases hp : parseSection f with
+    | none => simp [hp] at h
+    | some n =>
+      obtain ⟨c, hc, hd⟩ := parseSection_some_hasDigit f n hp
+      have hmem : c ∈ versionString s := mem_of_mem_splitOn '.' _ f (by rw [hs]; simp) c hc
+      simp only [hasDigit, List.any_eq_true]
+      exact ⟨c, hmem, hd⟩
+
+/-- `is_version` rejects every digit-free string other than the four container words -/
+theorem isVersion_noDigit (s : Str) (hd : hasDigit (versionString s) = false)
+    (hc : isContainerWord (versionString s) = false) : isVersion s = some false := by
+  unfold isVersion
+  have h14 : versionString s ≠ ['1', '.', '4'] := by
+    intro h; rw [h] at hd; revert hd; decide
+  simp only [h14, ↓reduceIte, hc, Bool.false_eq_true]
+  cases hp : parseVersion s with
+  | some v => rw [parseVersion_some_hasDigit s v hp] at hd; cases hd
+  | none => simp [hd]
 
 end MySensors
